@@ -472,7 +472,13 @@ pub fn run(ctx: &mut Ctx) -> R {
         }
         "C05" => {
             // the range of the coded number is not an entry of a code table: not judged as must-reject
-            let must_reject = !alt_valid && !label.contains("number_7byte");
+            // RFC 9639 9.2.7.3 makes the 32-bit residual range a MUST of the stream ("to ensure that decoders
+            // can use 32-bit integers"): a residual outside it is an illegal value although every code is legal
+            let wide_residual = rs_alt.as_ref().is_some_and(|r| r.strict.iter().any(|x| x.contains("residual not representable in 32 bits")));
+            if wide_residual && alt_valid {
+                probe("bent_must_reject_residual_beyond_32_bits");
+            }
+            let must_reject = (!alt_valid || wide_residual) && !label.contains("number_7byte");
             if must_reject {
                 probe("bent_must_reject");
                 let flat = pcm.concat();
